@@ -493,9 +493,8 @@ pub fn run(ctx: &Ctx) -> Report {
                 if param && b.iter().any(|a| matches!(a, Act::C(0, false))) {
                     continue;
                 }
-                // inside a finally block entered by an exception: no locals (listed finding KF-C08-04), no
-                // abrupt exit from the finally block (X)
-                if w == Wrap::InFinally && b.iter().any(|a| matches!(a, Act::XY | Act::R | Act::T)) {
+                // inside a finally block entered by an exception: no abrupt exit from the finally block (X)
+                if w == Wrap::InFinally && b.iter().any(|a| matches!(a, Act::R | Act::T)) {
                     continue;
                 }
                 if thorough || b.len() <= 2 {
